@@ -9,6 +9,7 @@ import (
 	"strconv"
 	"strings"
 	"sync/atomic"
+	"time"
 
 	"github.com/bradenaw/juniper/iterator"
 	"github.com/bradenaw/juniper/stream"
@@ -101,6 +102,23 @@ func showErr(err error) string {
 }
 
 // ---------------------------------------------------------------------------------------------
+// runaway protection: every source call and every callback invocation spends one unit of the case's
+// budget; a combinator that loops for ever on them panics (recovered per op) instead of hanging the harness
+
+var opBudget = 3000
+var budgetOn bool // only operations executed by the implementation under test are charged
+
+func spend() {
+	if !budgetOn {
+		return
+	}
+	opBudget--
+	if opBudget < 0 {
+		panic("runaway: the combinator keeps calling its source / callback")
+	}
+}
+
+// ---------------------------------------------------------------------------------------------
 // instrumented sources
 
 type ev struct {
@@ -180,15 +198,16 @@ type sSrc struct {
 }
 
 func (s *sSrc) Next(ctx context.Context) (any, error) {
+	spend()
 	s.log.enter()
 	defer s.log.leave()
-	s.log.calls++
 	if s.log.closes > 0 {
 		s.log.after++
 	}
 	if ctx.Err() != nil {
-		return nil, ctx.Err()
+		return nil, ctx.Err() // answered before anything is touched; not counted as a call
 	}
+	s.log.calls++
 	if len(s.script) == 0 {
 		return nil, stream.End
 	}
@@ -217,6 +236,7 @@ type iSrc struct {
 }
 
 func (s *iSrc) Next() (any, bool) {
+	spend()
 	s.log.calls++
 	if len(s.items) == 0 {
 		return nil, false
@@ -262,6 +282,7 @@ func splitBang(s string) (string, *int) {
 
 func predOf(name string) func(any) bool {
 	return func(a any) bool {
+		spend()
 		n := toInt(a)
 		switch {
 		case name == "even":
@@ -295,6 +316,7 @@ func predE(spec string) func(context.Context, any) (bool, error) {
 
 func fnOf(name string) func(any) any {
 	return func(a any) any {
+		spend()
 		n := toInt(a)
 		switch name {
 		case "inc":
@@ -325,6 +347,7 @@ func mod2(n int) int { return ((n % 2) + 2) % 2 }
 
 func relOf(name string) func(a, b any) bool {
 	return func(a, b any) bool {
+		spend()
 		switch name {
 		case "par":
 			return mod2(toInt(a)) == mod2(toInt(b))
@@ -686,7 +709,10 @@ func (st *implState) exec(line string) (out string) {
 		return "bad-op"
 	}
 	logs := func() string { return " | " + st.reg.show() }
-	if p, _ := vlib.Try(func() { out = st.exec1(f, logs) }); p {
+	budgetOn = true
+	p, _ := vlib.Try(func() { out = st.exec1(f, logs) })
+	budgetOn = false
+	if p {
 		return "panic" + logs()
 	}
 	return out
@@ -924,11 +950,30 @@ func (st *implState) exec1(f []string, logs func() string) string {
 	return "bad-op"
 }
 
+// runImpl executes a case. A case that does not finish within the watchdog time (a combinator looping
+// without touching its source or callbacks) aborts the whole run with a recorded failure.
 func runImpl(lines []string) ([]string, *implState) {
-	st := &implState{}
-	out := make([]string, len(lines))
-	for i, l := range lines {
-		out[i] = st.exec(l)
+	type res struct {
+		out []string
+		st  *implState
 	}
-	return out, st
+	done := make(chan res, 1)
+	go func() {
+		opBudget = 3000
+		st := &implState{}
+		out := make([]string, len(lines))
+		for i, l := range lines {
+			out[i] = st.exec(l)
+		}
+		done <- res{out, st}
+	}()
+	select {
+	case r := <-done:
+		return r.out, r.st
+	case <-time.After(20 * time.Second):
+		onHang(lines)
+		panic("unreachable")
+	}
 }
+
+var onHang = func(lines []string) { panic("hang") }
